@@ -6,6 +6,7 @@
 package simrt
 
 import (
+	"os"
 	"fmt"
 	"iter"
 	"slices"
@@ -39,6 +40,7 @@ type Run struct {
 
 	Steps   uint64
 	StepCap uint64
+	quiet   int // > 0 while the simulator itself calls into instrumented code (MapSeq sorting keys)
 
 	ClockSeed  uint64
 	ClockReads uint64
@@ -125,13 +127,26 @@ func (r *Run) OneIn(n int, label string) bool { return r.Choose(n, label) == n-1
 // ---------------------------------------------------------------------------
 // step budget and yields
 
+// yieldLog, if MGSIM_YIELDLOG names a file, receives every yield site in
+// order (debugging aid for the determinism self-test; not part of the trace).
+var yieldLog = func() *os.File {
+	if p := os.Getenv("MGSIM_YIELDLOG"); p != "" {
+		f, _ := os.Create(p)
+		return f
+	}
+	return nil
+}()
+
 // Yield is inserted at function entries (and statement boundaries in store code).
 func Yield(site string) {
 	r := Cur
-	if r == nil {
+	if r == nil || r.quiet > 0 {
 		return
 	}
 	r.Steps++
+	if yieldLog != nil {
+		fmt.Fprintf(yieldLog, "%d %s\n", r.Steps, site)
+	}
 	if r.Steps > r.StepCap {
 		panic(StepLimit{r.Steps})
 	}
@@ -143,7 +158,7 @@ func Yield(site string) {
 // Global marks an access to a written package-level variable.
 func Global(id string, write bool) {
 	r := Cur
-	if r == nil || r.Sched == nil {
+	if r == nil || r.Sched == nil || r.quiet > 0 {
 		return
 	}
 	r.Sched.onGlobal(id, write)
@@ -282,7 +297,13 @@ func MapSeq[M ~map[K]V, K comparable, V any](site string, m M) iter.Seq2[K, V] {
 		for k := range m {
 			keys = append(keys, k)
 		}
+		// Sorting asks the keys for their String()/Hash(), which are
+		// instrumented functions of the code under test, in an order that
+		// depends on the runtime's own iteration order above: those calls
+		// must neither count as steps nor be scheduling points.
+		r.quiet++
 		sortKeys(keys)
+		r.quiet--
 		r.MapEvents++
 		ev := r.MapEvents
 		switch r.OrderPolicy {
